@@ -1,1 +1,475 @@
-/-! C17 — property theorems (none yet). -/
+import Req.Lemmas.Form
+import Req.Lemmas.MultipartItems
+import Req.Lemmas.Progress
+import Req.Client.Body
+/-!
+C17 — form data, multipart uploads and marshalled bodies arrive exactly as supplied;
+progress callbacks are truthful.
+
+Part 1 (this section): form data.
+* `ordered_form_roundtrip` — what `handleOrderedFormData` writes for ANY list of key/value byte
+  strings is parsed by the server (`url.ParseQuery`) back to exactly that list, in order,
+  without error.
+* `ordered_args_roundtrip`, `ordered_odd_rejected` — the raw `SetOrderedFormData` argument list.
+* `form_roundtrip` — `url.Values.Encode` of ANY map (any iteration order): the server holds,
+  for every key, exactly the values supplied for it, in order, and reports no error.
+-/
+namespace Req.Props.C17
+open Req.Proto Req.Form
+
+/-- **ordered_form_roundtrip** -/
+theorem ordered_form_roundtrip (ps : List Pair) : parseForm (encodePairs ps) = (ps, false) :=
+  parseForm_encodePairs ps
+
+example : parseForm (encodePairs [([97, 32, 38], [61, 37, 200]), ([], []), ([97, 32, 38], [43])])
+    = ([([97, 32, 38], [61, 37, 200]), ([], []), ([97, 32, 38], [43])], false) := by decide
+
+/-- The argument list `k1, v1, k2, v2, …` of `SetOrderedFormData`. -/
+theorem ordered_args_roundtrip (ps : List Pair) :
+    (encodeOrdered (ps.flatMap (fun p => [p.1, p.2]))).map parseForm = some (ps, false) := by
+  simp [encodeOrdered, pairUp_flat, parseForm_encodePairs]
+
+/-- An odd number of arguments is rejected (`errBadOrderedFormData`), nothing is encoded. -/
+theorem ordered_odd_rejected (args : List Bytes) (h : args.length % 2 = 1) :
+    encodeOrdered args = none := by
+  suffices hp : pairUp args = none by simp [encodeOrdered, hp]
+  induction args using pairUp.induct with
+  | case1 => simp at h
+  | case2 => simp [pairUp]
+  | case3 k v rest ih =>
+    have : rest.length % 2 = 1 := by simp at h; omega
+    simp [pairUp, ih this]
+
+example : encodeOrdered [[97], [98], [99]] = none := by decide
+
+/-- **form_roundtrip** (multimap equality): no error, and under every key exactly the supplied
+values in the supplied order — whatever the map's iteration order `m` was. -/
+theorem form_roundtrip (m : Values) :
+    (parseForm (encode m)).2 = false ∧
+    ∀ k, valuesOfPairs (parseForm (encode m)).1 k = valuesOf m k := by
+  unfold encode
+  rw [parseForm_encodePairs]
+  refine ⟨rfl, fun k => ?_⟩
+  simp only
+  rw [valuesOfPairs_flatten, valuesOf_sortKeys]
+
+example : (parseForm (encode [([98], [[1], [2]]), ([97, 38], [[61]]), ([], [[]])])).1
+    = [([], []), ([97, 38], [61]), ([98], [1]), ([98], [2])] := by decide
+
+/-- **form_merge** — client-level form data merged into the request's
+(`SetFormDataFromValues(c.FormData)`): under every key the server finds the request's values
+followed by the client's, nothing lost, nothing duplicated. -/
+theorem form_merge (req client : Values) (hreq : (req.map (·.1)).Nodup) (k : Bytes) :
+    valuesOf (mergeForm req client) k = valuesOf req k ++ valuesOf client k ∧
+    valuesOfPairs (parseForm (encode (mergeForm req client))).1 k = valuesOf req k ++ valuesOf client k := by
+  have h := (valuesOf_addAll req client k hreq).2
+  exact ⟨h, by rw [(form_roundtrip _).2 k]; exact h⟩
+
+example : valuesOf (mergeForm [([97], [[1]]), ([98], [[2]])] [([98], [[3], [4]]), ([99], [[5]])]) [98]
+    = [[2], [3], [4]] := by decide
+
+/-! ## Part 2: quoting of Content-Disposition parameters -/
+
+section Quoting
+open Req.Multipart
+
+/-- **quote_unquote** — for ALL byte strings `s`: a standard parser (`mime.consumeValue`) reads
+the repaired quoting of `s` back as `arrive s`: every byte a header value can carry exactly,
+the others (controls except TAB, DEL) percent-encoded. -/
+theorem quote_unquote (s rest : Bytes) :
+    consumeQuoted (quote s ++ 34 :: rest) = some (arrive s, rest) :=
+  cq_quote_all s rest
+
+/-- **quote_roundtrip** — `unquote (quote s) = s` for every `s` a header can carry at all
+(TAB, quotes, backslashes, non-ASCII and invalid UTF-8 included). -/
+theorem quote_roundtrip (s rest : Bytes) (h : ∀ c ∈ s, headerUnsafe c = false) :
+    consumeQuoted (quote s ++ 34 :: rest) = some (s, rest) := by
+  rw [cq_quote_all, arrive_safe s h]
+
+example : consumeQuoted (quote [97, 9, 34, 92, 200, 98] ++ [34]) = some ([97, 9, 34, 92, 200, 98], []) := by
+  decide
+
+/-- The repaired quoting never produces a byte that `net/textproto` refuses in a header value:
+no name, whatever its bytes, can break the part header or make the server reject the upload. -/
+theorem quote_header_valid (s : Bytes) : ∀ c ∈ quote s, validValueByte c = true :=
+  quote_valid s
+
+set_option maxRecDepth 100000 in
+theorem goQuoteByte_printable : ∀ c : UInt8, 32 ≤ c ∧ c < 127 →
+    (c = 92 ∧ goQuoteByte c = some [92, 92]) ∨ (c = 34 ∧ goQuoteByte c = some [92, 34]) ∨
+    (goQuoteByte c = some [c] ∧ (c == 34) = false ∧ (c == 92) = false ∧ (c == 13) = false ∧ (c == 10) = false) := by
+  apply Req.Form.byte_forall
+  decide
+
+/-- What the UNPATCHED code does (Go's `%q`): the round trip holds for printable ASCII names… -/
+theorem goquote_roundtrip_partial (s rest : Bytes) (h : ∀ c ∈ s, 32 ≤ c ∧ c < 127) :
+    ∃ q, goQuoteAscii s = some q ∧ consumeQuoted (q ++ 34 :: rest) = some (s, rest) := by
+  induction s with
+  | nil => exact ⟨[], rfl, by simp [cq_quote]⟩
+  | cons c cs ih =>
+    obtain ⟨q, hq, hc⟩ := ih (fun x hx => h x (List.mem_cons_of_mem _ hx))
+    have hb := h c (by simp)
+    rcases goQuoteByte_printable c hb with ⟨rfl, hg⟩ | ⟨rfl, hg⟩ | ⟨hg, h34, h92, h13, h10⟩
+    · refine ⟨[92, 92] ++ q, by simp [goQuoteAscii, hg, hq], ?_⟩
+      rw [show ([92, 92] ++ q ++ 34 :: rest : Bytes) = 92 :: 92 :: (q ++ 34 :: rest) by simp,
+        cq_esc 92 _ (by decide), hc]
+      rfl
+    · refine ⟨[92, 34] ++ q, by simp [goQuoteAscii, hg, hq], ?_⟩
+      rw [show ([92, 34] ++ q ++ 34 :: rest : Bytes) = 92 :: 34 :: (q ++ 34 :: rest) by simp,
+        cq_esc 34 _ (by decide), hc]
+      rfl
+    · refine ⟨[c] ++ q, by simp [goQuoteAscii, hg, hq], ?_⟩
+      rw [show ([c] ++ q ++ 34 :: rest : Bytes) = c :: (q ++ 34 :: rest) by simp,
+        cq_lit c _ h34 h92 h13 h10, hc]
+      rfl
+
+/-- …and FAILS outside: the name `a<TAB>b` arrives as the five bytes `a\tb` (the defect of
+DESIGN section 5 row 19; replayed on the real code by the lanes `quote` and `cdheader`). -/
+theorem goquote_tab_counterexample :
+    (goQuoteAscii [97, 9, 98]).bind (fun q => consumeQuoted (q ++ [34]))
+      = some ([97, 92, 116, 98], []) := by decide
+
+end Quoting
+
+/-! ## Part 3: multipart bodies -/
+
+section Multipart
+open Req.Multipart
+
+private def partOf : Sum (Bytes × Bytes) File → Part × List (Bytes × Bytes)
+  | .inl kv => (fieldPart kv, fieldHeaders kv)
+  | .inr f => (filePart f, fileHeaders f)
+
+private def itemS : Sum (Bytes × Bytes) File → Item
+  | .inl kv => fieldItem kv
+  | .inr f => fileItem f
+
+/-- **multipart_roundtrip** — for every boundary without LF, all fields and all files that a
+multipart body can carry (`FieldOK`, `FileOK`: non-empty names, delimiter-free contents; file
+names may contain ANY bytes): the server reads back exactly the fields, then the files, in
+order — names as `arrive` (exact for every byte a header can carry), content types and file
+bytes exact. -/
+theorem multipart_roundtrip (b : Bytes) (fields : List (Bytes × Bytes)) (files : List File)
+    (hb : (10 : UInt8) ∉ b)
+    (hfields : ∀ kv ∈ fields, FieldOK b kv) (hfiles : ∀ f ∈ files, FileOK b f) :
+    serverForm b (write b fields files) = .ok (fields.map fieldItem ++ files.map fileItem) := by
+  let l : List (Sum (Bytes × Bytes) File) := fields.map .inl ++ files.map .inr
+  have hw : write b fields files = writeParts b ((l.map partOf).map (·.1)) := by
+    simp [write, l, List.map_append, List.map_map, Function.comp_def, partOf]
+  have hgood : ∀ q ∈ l.map partOf, GoodPart (delim b) q.1 q.2 := by
+    intro q hq
+    simp only [l, List.map_append, List.map_map, List.mem_append, List.mem_map, Function.comp] at hq
+    rcases hq with ⟨kv, hkv, rfl⟩ | ⟨f, hf, rfl⟩
+    · exact goodPart_field b kv (hfields kv hkv)
+    · exact goodPart_file b f (hfiles f hf)
+  have hitems : itemsOf ((l.map partOf).map fun q => ⟨q.2, q.1.content⟩) = .ok (l.map itemS) := by
+    rw [List.map_map]
+    apply itemsOf_map
+    intro x hx
+    simp only [l, List.mem_append, List.mem_map] at hx
+    rcases hx with ⟨kv, hkv, rfl⟩ | ⟨f, hf, rfl⟩
+    · have := hfields kv hkv
+      exact itemOf_field kv this.name_ne this.name_safe
+    · exact itemOf_file b f (hfiles f hf)
+  unfold serverForm
+  rw [hw, parseBody_write b _ hb hgood]
+  simp only [hitems]
+  simp [l, List.map_append, List.map_map, Function.comp_def, itemS]
+
+/-- The exact form: when the names are made of bytes a header can carry (everything except
+controls other than TAB, and DEL), the server holds exactly the supplied names. -/
+theorem multipart_roundtrip_exact (b : Bytes) (fields : List (Bytes × Bytes)) (files : List File)
+    (hb : (10 : UInt8) ∉ b)
+    (hfields : ∀ kv ∈ fields, FieldOK b kv) (hfiles : ∀ f ∈ files, FileOK b f)
+    (hsafe : ∀ f ∈ files, (∀ c ∈ f.param, headerUnsafe c = false) ∧ (∀ c ∈ f.filename, headerUnsafe c = false)) :
+    serverForm b (write b fields files) =
+      .ok (fields.map fieldItem ++ files.map fun f => .file f.param f.filename (seenCType f) f.content) := by
+  rw [multipart_roundtrip b fields files hb hfields hfiles]
+  congr 2
+  apply List.map_congr_left
+  intro f hf
+  simp [fileItem, arrive_safe _ (hsafe f hf).1, arrive_safe _ (hsafe f hf).2]
+
+/-- The hypothesis `BoundaryFree` of `multipart_roundtrip` in plain words: it holds whenever
+the delimiter (CRLF `--` boundary) does not occur in CRLF ++ content and the boundary has no
+CR — which is what "the boundary does not occur in the data" means for a multipart body. -/
+theorem boundary_free_of_absent (b content : Bytes) (hcr : (13 : UInt8) ∉ b)
+    (h : ¬ (delim b) <:+: (crlf ++ content)) : BoundaryFree (delim b) (crlf ++ content) :=
+  boundaryFree_of_not_infix b (crlf ++ content) hcr h
+
+/-- A boundary accepted by `Writer.SetBoundary` contains no LF. -/
+theorem validBoundary_no_lf (b : Bytes) (h : validBoundary b = true) : (10 : UInt8) ∉ b := by
+  intro hm
+  simp only [validBoundary, Bool.and_eq_true, List.all_eq_true] at h
+  have := h.1.2 10 hm
+  exact absurd this (by decide)
+
+/- Non-vacuity: a field, and a file whose name contains TAB, a quote, a backslash and a
+non-ASCII byte and whose content contains CRLF and dashes, under the boundary `B`. -/
+set_option maxRecDepth 100000 in
+example : (serverForm [66] (write [66] [([107], [118, 13, 10, 45, 45])]
+      [⟨[102], [97, 9, 34, 92, 200], [], [116, 47, 120], [13, 10, 45, 45, 65, 0]⟩])).toOption
+    = some [.field [107] [118, 13, 10, 45, 45],
+            .file [102] [97, 9, 34, 92, 200] [116, 47, 120] [13, 10, 45, 45, 65, 0]] := by decide
+
+/- Non-vacuity of the hypotheses: the same field and file satisfy `FieldOK` / `FileOK`. -/
+example : FieldOK [66] ([107], [118, 13, 10, 45, 45]) :=
+  ⟨by decide, by decide, by unfold BoundaryFree; decide⟩
+
+example : FileOK [66] ⟨[102], [97, 9, 34, 92, 200], [([120, 45, 97], [1, 2])], [116, 47, 120], [13, 10, 45, 45, 65, 0]⟩ :=
+  ⟨by decide, by decide, by unfold GoodParams; decide, by unfold CTypeOK; decide, by unfold BoundaryFree; decide⟩
+
+set_option maxRecDepth 100000 in
+theorem boundaryChar_facts : ∀ c : UInt8, boundaryChar c = true →
+    ((c == 34) = false ∧ (c == 92) = false ∧ (c == 13) = false ∧ (c == 10) = false) ∧
+    ((isTSpecial c || c == 32) = false → isTokenChar c = true) := by
+  apply Req.Form.byte_forall
+  decide
+
+/-- **content_type_matches_body** (the boundary) — for every boundary `Writer.SetBoundary`
+accepts, the Content-Type header written by `FormDataContentType` (quoted when the boundary
+contains tspecials or spaces) is parsed by the server (`mime.ParseMediaType`) as
+`multipart/form-data` with exactly that boundary — the one the body was written with. -/
+theorem content_type_boundary (b : Bytes) (hv : validBoundary b = true) :
+    parseMediaType (formDataContentType b) = .ok (multipartFormData, [(boundaryKey, b)]) := by
+  simp only [validBoundary, Bool.and_eq_true, List.all_eq_true, decide_eq_true_eq] at hv
+  obtain ⟨⟨⟨hlen, -⟩, hchars⟩, -⟩ := hv
+  have hne : b ≠ [] := by intro e; subst e; simp at hlen
+  have hconst : Req.Ascii.lower (((multipartFormData.reverse.dropWhile isBlank).reverse).dropWhile isBlank) = multipartFormData ∧
+      validType multipartFormData = true ∧ (∀ x ∈ multipartFormData, (fun c : UInt8 => c != 59) x = true) ∧
+      boundaryKey ≠ [] ∧ (∀ x ∈ boundaryKey, isTokenChar x = true) ∧ Req.Ascii.lower boundaryKey = boundaryKey ∧
+      boundaryKey.contains 42 = false := by decide
+  obtain ⟨c1, c2, c3, c4, c5, c6, c7⟩ := hconst
+  unfold formDataContentType
+  split
+  next hq =>
+    -- quoted boundary
+    have hshape : multipartFormData ++ [59, 32] ++ boundaryKey ++ [61] ++ ([34] ++ b ++ [34])
+        = multipartFormData ++ ([59, 32] ++ boundaryKey ++ [61, 34] ++ b ++ [34] ++ []) := by simp
+    rw [hshape]
+    apply parseMediaType_typed _ _ _ c1 c2 c3
+    · right; exact ⟨[32] ++ boundaryKey ++ [61, 34] ++ b ++ [34] ++ [], by simp⟩
+    · have hcq : consumeQuoted (b ++ 34 :: []) = some (b, []) :=
+        cq_plain b [] (fun c hc => (boundaryChar_facts c (hchars c hc)).1)
+      rw [parseParams_step _ boundaryKey b b [] c4 c5 hcq]
+      have : ∃ n, (multipartFormData ++ ([59, 32] ++ boundaryKey ++ [61, 34] ++ b ++ [34] ++ [])).length = n + 1 :=
+        ⟨_, by simp [multipartFormData]; rfl⟩
+      obtain ⟨n, hn⟩ := this
+      rw [hn, parseParams_nil]
+      simp [c6]
+    · simp; decide
+    · simp [dupConflict]
+  next hq =>
+    -- token boundary
+    have hq' : ∀ c ∈ b, (isTSpecial c || c == 32) = false := by
+      intro c hc
+      rw [Bool.eq_false_iff]
+      intro h
+      exact hq (List.any_eq_true.mpr ⟨c, hc, h⟩)
+    have htok : ∀ c ∈ b, isTokenChar c = true :=
+      fun c hc => (boundaryChar_facts c (hchars c hc)).2 (hq' c hc)
+    have hshape : multipartFormData ++ [59, 32] ++ boundaryKey ++ [61] ++ b
+        = multipartFormData ++ ([59, 32] ++ boundaryKey ++ [61] ++ b) := by simp
+    rw [hshape]
+    apply parseMediaType_typed _ _ _ c1 c2 c3
+    · right; exact ⟨[32] ++ boundaryKey ++ [61] ++ b, by simp⟩
+    · have : ∃ n, (multipartFormData ++ ([59, 32] ++ boundaryKey ++ [61] ++ b)).length + 1 = n + 2 :=
+        ⟨_, by simp [multipartFormData]; rfl⟩
+      obtain ⟨n, hn⟩ := this
+      rw [hn, parseParams_step_token n boundaryKey b c4 c5 hne htok, c6]
+    · simp; decide
+    · simp [dupConflict]
+
+example : (parseMediaType (formDataContentType [97, 32, 98])).toOption = some (multipartFormData, [(boundaryKey, [97, 32, 98])])
+    ∧ validBoundary [97, 32, 98] = true := by
+  decide
+
+end Multipart
+
+/-! ## Part 4: body dispatch (`parseRequestBody`) -/
+
+section Dispatch
+open Req.Body Req.Multipart
+
+/-- The method table of `isPayloadForbid`. -/
+theorem isPayloadForbid_iff (m : String) (allow : Bool) :
+    isPayloadForbid m allow = true ↔ m = "HEAD" ∨ m = "OPTIONS" ∨ (m = "GET" ∧ allow = false) := by
+  simp only [isPayloadForbid, Bool.or_eq_true, Bool.and_eq_true, beq_iff_eq, Bool.not_eq_true']
+  constructor
+  · rintro ((⟨h, ha⟩ | h) | h)
+    · exact Or.inr (Or.inr ⟨h, ha⟩)
+    · exact Or.inl h
+    · exact Or.inr (Or.inl h)
+  · rintro (h | h | ⟨h, ha⟩)
+    · exact Or.inl (Or.inr h)
+    · exact Or.inr h
+    · exact Or.inl (Or.inl ⟨h, ha⟩)
+
+/-- **payload_forbidden_sends_none** — whatever body description the request carries (raw
+body, value to marshal, form data, files), a method that must not carry a payload sends
+none, and no error is raised. -/
+theorem payload_forbidden_sends_none (c : Cfg) (h : isPayloadForbid c.method c.allowGet = true) :
+    dispatch c = some ⟨.none, none, effCT c⟩ := by
+  simp [dispatch, h]
+
+private def exHead : Cfg :=
+  { method := "HEAD", allowGet := true, multipart := true, clientForm := [([1], [ [2] ])],
+    reqForm := [], ordered := [[1]], files := [], boundary := [66], marshal := some (some [1], none),
+    body := some [1, 2], reqCT := [], clientCT := [], sniffed := [] }
+
+example : (dispatch exHead).map (·.body) = some none := by decide
+
+private def exGet : Cfg :=
+  { method := "GET", allowGet := true, multipart := false, clientForm := [],
+    reqForm := [], ordered := [], files := [], boundary := [66], marshal := none,
+    body := some [1, 2], reqCT := [], clientCT := [], sniffed := [7] }
+
+/- Conversely a body IS sent with every other method when one is described. -/
+example : (dispatch exGet).map (·.body) = some (some [1, 2]) := by decide
+
+/-- An odd number of ordered form data strings is refused by the call itself (repaired
+behaviour, fixes/C17-2) — unless the method sends no payload at all. -/
+theorem ordered_odd_fails (c : Cfg) (hm : isPayloadForbid c.method c.allowGet = false)
+    (h : c.ordered.length % 2 = 1) : dispatch c = none := by
+  have : pairUp c.ordered = none := by
+    have := ordered_odd_rejected c.ordered h
+    simpa [encodeOrdered] using this
+  simp [dispatch, hm, this]
+
+/-- **marshal_choice** — a value to marshal (and nothing that takes precedence: no form data,
+no multipart): without any Content-Type preset the JSON marshaller is used and the JSON
+content type is set; with a preset (request level first, else client level) containing
+"xml" the XML marshaller is used, otherwise the JSON marshaller; the preset type is kept. -/
+theorem marshal_choice (c : Cfg) (json xml : Option Bytes)
+    (hm : isPayloadForbid c.method c.allowGet = false) (hmp : c.multipart = false)
+    (ho : c.ordered = []) (hr : c.reqForm = []) (hc : c.clientForm = [])
+    (hv : c.marshal = some (json, xml)) :
+    dispatch c =
+      if (effCT c).isEmpty then json.map (fun j => ⟨.marshalJson, some j, jsonCT⟩)
+      else if isInfix xmlWord (effCT c) then xml.map (fun x => ⟨.marshalXml, some x, effCT c⟩)
+      else json.map (fun j => ⟨.marshalJson, some j, effCT c⟩) := by
+  simp only [dispatch, hm, hmp, ho, hr, hc, hv, pairUp, mergeForm, addAll, List.foldl_nil,
+    List.isEmpty_nil, Bool.false_eq_true, ↓reduceIte, Bool.not_true, Bool.or_self]
+  split
+  · cases json <;> rfl
+  · split
+    · cases xml <;> rfl
+    · cases json <;> rfl
+
+theorem joinAmp_encodePairs (a b : List Pair) :
+    joinAmp (encodePairs a) (encodePairs b) = encodePairs (a ++ b) := by
+  have hne : ∀ (p : Pair) (l : List Pair), (encodePairs (p :: l)).isEmpty = false := by
+    intro p l
+    cases l with
+    | nil => simp [encodePairs, encPair]
+    | cons q qs => simp [encodePairs, encPair]
+  induction a with
+  | nil =>
+    cases b with
+    | nil => rfl
+    | cons q qs => simp [joinAmp, encodePairs]
+  | cons p ps ih =>
+    cases b with
+    | nil => simp [joinAmp, hne, encodePairs]
+    | cons q qs =>
+      cases ps with
+      | nil =>
+        have h1 := hne p []
+        simp only [encodePairs] at h1
+        simp [joinAmp, h1, hne, encodePairs]
+      | cons r rs =>
+        have h1 : encodePairs (p :: r :: rs) = encPair p ++ 38 :: encodePairs (r :: rs) := rfl
+        have h2 : encodePairs (p :: r :: rs ++ q :: qs) = encPair p ++ 38 :: encodePairs (r :: rs ++ q :: qs) := rfl
+        rw [h2, ← ih]
+        simp [joinAmp, hne, h1]
+
+/-- **content_type_matches_body** (urlencoded case) — whenever form data of either kind is
+present (and the request is not multipart), the request goes out as
+`application/x-www-form-urlencoded` — whatever Content-Type was preset — and the server's
+`ParseForm` reads the body back, without error, as exactly the ordered pairs (in order)
+followed by the merged request + client form data. -/
+theorem form_dispatch_roundtrip (c : Cfg) (pairs : List Pair)
+    (hm : isPayloadForbid c.method c.allowGet = false) (hmp : c.multipart = false)
+    (ho : pairUp c.ordered = some pairs)
+    (hne : (mergeForm c.reqForm c.clientForm).isEmpty = false ∨ pairs.isEmpty = false) :
+    ∃ body, dispatch c = some ⟨.form, some body, formCT⟩ ∧
+      parseForm body = (pairs ++ flatten (sortKeys (mergeForm c.reqForm c.clientForm)), false) := by
+  refine ⟨joinAmp (encodePairs pairs) (encode (mergeForm c.reqForm c.clientForm)), ?_, ?_⟩
+  · have : (!(mergeForm c.reqForm c.clientForm).isEmpty || !pairs.isEmpty) = true := by
+      rcases hne with h | h <;> simp [h]
+    simp [dispatch, hm, hmp, ho, this]
+  · unfold encode
+    rw [joinAmp_encodePairs, parseForm_encodePairs]
+
+/-- **content_type_matches_body** (multipart case) — a multipart request goes out under
+`multipart/form-data; boundary=<the boundary the body was written with>` and, for everything a
+multipart body can carry, the server reads back the ordered pairs, then the merged form data
+(in map order), then the files. -/
+theorem multipart_dispatch_roundtrip (c : Cfg) (pairs : List Pair)
+    (hm : isPayloadForbid c.method c.allowGet = false) (hmp : c.multipart = true)
+    (ho : pairUp c.ordered = some pairs) (hb : (10 : UInt8) ∉ c.boundary)
+    (hfields : ∀ kv ∈ pairs ++ flatten (mergeForm c.reqForm c.clientForm), FieldOK c.boundary kv)
+    (hfiles : ∀ f ∈ c.files, FileOK c.boundary f) :
+    ∃ body, dispatch c = some ⟨.multipart, some body, formDataContentType c.boundary⟩ ∧
+      serverForm c.boundary body =
+        .ok ((pairs ++ flatten (mergeForm c.reqForm c.clientForm)).map fieldItem ++ c.files.map fileItem) := by
+  refine ⟨write c.boundary (pairs ++ flatten (mergeForm c.reqForm c.clientForm)) c.files,
+    by simp [dispatch, hm, hmp, ho], ?_⟩
+  exact multipart_roundtrip c.boundary _ c.files hb hfields hfiles
+
+end Dispatch
+
+/-! ## Part 5: progress callbacks -/
+
+section Progress
+open Req.Progress
+
+/-- **progress_monotone** (upload, `callbackWriter`) — for every sequence of write results and
+every behaviour of the clock: the reported counts are strictly increasing, every one of them
+is the true number of bytes written after some call (`Sublist` of the running counts), and none
+exceeds the bytes written in total. -/
+theorem progress_monotone_upload (st : WState) (evs : List WEvent) :
+    (runW st evs).Pairwise (· < ·) ∧ (runW st evs).Sublist (countsW st.written evs) ∧
+    ∀ x ∈ runW st evs, st.written < x ∧ x ≤ st.written + bytesW evs := by
+  have hs := runW_sublist st evs
+  exact ⟨(countsW_increasing st.written evs).sublist hs, hs,
+    fun x hx => countsW_bounds st.written evs x (hs.subset hx)⟩
+
+/-- **progress_final** (upload) — when the size was known (`totalSize` = the bytes that are
+really written) and not zero, the last reported count is that size. -/
+theorem progress_final_upload (total : Int) (evs : List WEvent)
+    (hknown : total = bytesW evs) (hpos : 0 < total) :
+    (runW ⟨0, total⟩ evs).getLast? = some total := by
+  have := runW_final ⟨0, total⟩ evs (by simp [hknown]) (by omega)
+  simpa using this
+
+example : runW ⟨0, 1000⟩ [⟨512, false⟩, ⟨0, true⟩, ⟨-1, true⟩, ⟨400, true⟩, ⟨88, false⟩] = [912, 1000] := by
+  decide
+
+/-- With an unknown size (`totalSize = 0`) nothing is promised about the end: the clock alone
+decides (this is why the property says "uploads whose size was known"). -/
+example : runW ⟨0, 0⟩ [⟨512, false⟩, ⟨488, false⟩] = [] := by decide
+
+/-- **progress_monotone** (download, `callbackReader`). -/
+theorem progress_monotone_download (evs : List REvent) :
+    (runR ⟨0, 0⟩ evs).Pairwise (· < ·) ∧ (runR ⟨0, 0⟩ evs).Sublist (countsR 0 evs) ∧
+    ∀ x ∈ runR ⟨0, 0⟩ evs, 0 < x ∧ x ≤ bytesR evs := by
+  refine ⟨runR_increasing _ evs (by simp), runR_sublist _ evs, fun x hx => ?_⟩
+  have := runR_bounds ⟨0, 0⟩ evs (by simp) x hx
+  simpa using this
+
+/-- **progress_final** (download) — once a read has delivered `io.EOF` (and nothing is read
+after it), the last reported count is the total number of bytes read, for every split into
+reads and every behaviour of the clock. -/
+theorem progress_final_download (pre post : List REvent) (e : REvent)
+    (heof : e.eof = true) (hpost : ∀ x ∈ post, x.n ≤ 0) (hpos : 0 < bytesR (pre ++ e :: post)) :
+    (runR ⟨0, 0⟩ (pre ++ e :: post)).getLast? = some (bytesR (pre ++ e :: post)) := by
+  have := runR_final ⟨0, 0⟩ pre post e (by simp) heof hpost (by simpa using hpos)
+  simpa using this
+
+example : runR ⟨0, 0⟩ [⟨100, false, false⟩, ⟨50, false, true⟩, ⟨0, false, true⟩, ⟨25, false, false⟩, ⟨0, true, false⟩,
+    ⟨0, true, true⟩] = [150, 175] := by decide
+
+end Progress
+
+end Req.Props.C17
